@@ -12,6 +12,7 @@ EXPLANATION = (
     "storage operation is a single transaction, so the lock-free readers (lookup, count) never observe half of one. "
     'Also decided: every NameServer method touches the storage only under the lock; multi-statement reads of the sqlite storage run in one snapshot; `nsc register` is one safe remote call. '
     'Also decided (round 7): The storage is used through NameServer only (other code may only close it); MemoryStorage never edits a stored entry in place. '
+    'Also decided (round 9): Fields of the name server object are written only under the lock. '
     "Not decided: linearizability of histories, atomicity inside one storage method."
 )
 
